@@ -410,11 +410,11 @@ fn check_lead(lead: &str, cfg: &Cfg, first_token: bool, is_eof: bool) -> Result<
     }
     let last = &lead[seg_start..];
     if nls == 0 {
+        if first_token {
+            // the indentation of the first line (a single blank is not a token separator here)
+            return if last.is_empty() { Ok(()) } else { check_indent(last, cfg) };
+        }
         if !(last.is_empty() || last == " ") {
-            if first_token {
-                // the indentation of the first line
-                return check_indent(last, cfg);
-            }
             return Err(("same-line-gap", format!("gap {lead:?} between tokens on one line")));
         }
         return Ok(());
